@@ -207,8 +207,8 @@ func (d *PathDecoder) hoverContentForBlock(bType string, schema *schema.BlockSch
 	}
 }
 
-func hoverContentForReferenceTarget(ctx context.Context, ref reference.Target, pos hcl.Pos) (string, error) {
-	content := fmt.Sprintf("`%s`", ref.Address(ctx, pos))
+func hoverContentForReferenceTarget(ctx context.Context, ref reference.Target, filename string, pos hcl.Pos) (string, error) {
+	content := fmt.Sprintf("`%s`", ref.AddressInFile(ctx, filename, pos))
 
 	var friendlyName string
 	if ref.Type != cty.NilType {
